@@ -200,7 +200,9 @@ package codegen
 //@   hint rOff(m0, s0) == int(m0[s0]) && rCnt(m0, s0) == int(m0[rOff(m0, s0)]) && rFlags(m0, s0) == int(m0[rOff(m0, s0) + 1]) && rN(m0, s0) == int(m0[rOff(m0, s0) + 2])
 //@   let greedyRow = rFlags(m0, s0) % 2 == 0
 //@   let hit = exists k int :: 0 <= k && k < rN(m0, s0) && rLo(m0, s0, k) <= r && r <= rHi(m0, s0, k)
-//@   let na = rNAct(m0, s0)
+//   naT: actions in the row; na: actions that run (none while nothing is pending: an empty match, C11)
+//@   let naT = rNAct(m0, s0)
+//@   let na = ite(old(l.pending), rNAct(m0, s0), 0)
 //@   ensures result == 0 || result == 1 || result == 2 || result == 3 || result == 4 || result == -1
 //   a transition is taken exactly when the row is not a non-greedy accepting one and some range holds r
 //@   ensures result == 0 <==> (greedyRow && hit)
@@ -243,13 +245,13 @@ package codegen
 //@   loop 0 hint rLo(m0, s0, j) == int(mode[k]) && rHi(m0, s0, j) == int(mode[k+1])
 //@   loop 0 decreases e - b
 //@   loop 1 hint rAct(m0, s0, jj - 1) == int(mode[i-2]) && rPar(m0, s0, jj - 1) == int(mode[i-1])
-//@   loop 1 invariant mode == m0 && l == old(l) && r == old(r) && end == ab + 2*na && ab <= i && i <= end && (i - ab) % 2 == 0
-//@   loop 1 invariant l.state == s0 && l.token == old(l.token) && l.pending == old(l.pending)
+//@   loop 1 invariant mode == m0 && l == old(l) && r == old(r) && end == ab + 2*naT && ab <= i && i <= end && (i - ab) % 2 == 0
+//@   loop 1 invariant l.state == s0 && l.token == old(l.token) && l.pending == old(l.pending) && (i < end ==> old(l.pending))
 //@   loop 1 invariant wfMode(l.mode) && base(l.modeStack) != base(_lexerModes)
 //@   loop 1 invariant forall q int :: {l.modeStack[q]} 0 <= q && q < len(l.modeStack) ==> wfMode(l.modeStack[q])
 //@   loop 1 invariant forall q int :: {_lexerModes[q]} 0 <= q && q < len(_lexerModes) ==> wfMode(_lexerModes[q])
-//@   loop 1 invariant forall j2 int :: {rAct(m0, s0, j2)} 0 <= j2 && j2 < jj ==> rAct(m0, s0, j2) == 1 || rAct(m0, s0, j2) == 2
-//@   loop 1 invariant jj == 0 ==> l.mode == m0 && l.modeStack == old(l.modeStack) && (forall q int :: {l.modeStack[q]} 0 <= q && q < len(l.modeStack) ==> l.modeStack[q] == old(l.modeStack[q]))
+//@   loop 1 invariant old(l.pending) ==> forall j2 int :: {rAct(m0, s0, j2)} 0 <= j2 && j2 < jj ==> rAct(m0, s0, j2) == 1 || rAct(m0, s0, j2) == 2
+//@   loop 1 invariant (jj == 0 || !old(l.pending)) ==> l.mode == m0 && l.modeStack == old(l.modeStack) && (forall q int :: {l.modeStack[q]} 0 <= q && q < len(l.modeStack) ==> l.modeStack[q] == old(l.modeStack[q]))
 //@   loop 1 invariant (jj == 1 && rAct(m0, s0, 0) == 1) ==> l.mode == _lexerModes[rPar(m0, s0, 0)] && len(l.modeStack) == old(len(l.modeStack)) + 1 && l.modeStack[old(len(l.modeStack))] == m0
 //@   loop 1 invariant (jj == 1 && rAct(m0, s0, 0) == 2) ==> old(len(l.modeStack)) > 0 && l.mode == old(l.modeStack[len(l.modeStack) - 1]) && len(l.modeStack) == old(len(l.modeStack)) - 1
 //@   loop 1 invariant (jj == 2 && rAct(m0, s0, 0) == 2 && rAct(m0, s0, 1) == 1) ==> old(len(l.modeStack)) > 0 && l.mode == _lexerModes[rPar(m0, s0, 1)] && len(l.modeStack) == old(len(l.modeStack)) && l.modeStack[len(l.modeStack) - 1] == old(l.modeStack[len(l.modeStack) - 1])
